@@ -31,6 +31,39 @@ CHECKS = {
                      'load paths, orders and hash seeds with fixed-point and '
                      'reference-model oracles',
     },
+    'C07': {
+        'category': 'exploration',
+        'text': 'Seeded histories on one long-lived model: up to 8 '
+                'operations (calculations with other overrides, a '
+                'calculation aborted part-way by an injected failure of a '
+                'user function, compile+call, to_dict, writes to fresh / '
+                'loaded books / simulated disk, deepcopy, finish again) '
+                'precede an observed calculate(inputs, outputs); the result '
+                'must equal a fresh model\'s (differential), satisfy the '
+                'fixed point with the overridden cells pinned, equal the '
+                'alias-free form of the inputs and be unchanged by the '
+                'outputs restriction.',
+        'design_ref': 'DESIGN.md 4.2',
+        'technique': 'deterministic simulation: seeded operation/fault '
+                     'histories against a fresh-model differential oracle '
+                     'and a pinned fixed-point oracle',
+    },
+    'C10': {
+        'category': 'exploration',
+        'text': 'Seeded cyclic workbooks (strict and lazy back edges through '
+                'cells, ranges, names) built along several schedules under '
+                'several PYTHONHASHSEED values with finish(circular=True), '
+                'under a step budget; judged clause by clause against a '
+                'labelled dependency graph with brute-force cycle '
+                'enumeration and a lazy reference evaluator; plus '
+                'simple_cycles vs brute force on ALL digraphs with <= 4 '
+                'nodes (16 slices) and random graphs to 9 nodes under '
+                'several insertion orders.',
+        'design_ref': 'DESIGN.md 4.3',
+        'technique': 'deterministic simulation: seeded schedule and hash-seed '
+                     'search with graph / reference-model oracles; exhaustive '
+                     'small-graph sub-batch for the cycle analysis',
+    },
 }
 
 NOT_APPLICABLE = {
